@@ -342,8 +342,15 @@ pub trait BinRead {
     }
 
     fn read_byte_vec(&mut self, len: usize) -> Result<Vec<u8>, Self::Err> {
-        let mut buf = vec![0; len];
-        self.read_exact(&mut buf)?;
+        // `len` typically comes straight out of the file being read.  Don't allocate it up front;
+        // a corrupt length field must produce a read error, not a gigantic allocation.
+        let mut buf = vec![];
+        let num_read = io::Read::take(&mut *self._bin_read_reader(), len as u64).read_to_end(&mut buf)
+            .map_err(|e| self._bin_read_io_error(e))?;
+        if num_read < len {
+            let e = io::Error::new(io::ErrorKind::UnexpectedEof, "failed to fill whole buffer");
+            return Err(self._bin_read_io_error(e));
+        }
         Ok(buf)
     }
 
